@@ -147,6 +147,11 @@ VARIANTS = {
     "checks": "-DBSPLINE_ADD_TEST_CHECKS",
     "asan": "-fsanitize=address,undefined -fno-sanitize-recover=all -fno-omit-frame-pointer -g1 -D_GLIBCXX_ASSERTIONS",
     "asanchecks": "-fsanitize=address,undefined -fno-sanitize-recover=all -fno-omit-frame-pointer -g1 -D_GLIBCXX_ASSERTIONS -DBSPLINE_ADD_TEST_CHECKS",
+    "debugstl": "-D_GLIBCXX_DEBUG -D_GLIBCXX_DEBUG_PEDANTIC",
+    # rounding tiers (C16): the same generated program with a built-in floating type as scalar
+    "fp_float": "-DVERIF_FP=float", "fp_double": "-DVERIF_FP=double", "fp_ldouble": "-DVERIF_FP='long double'",
+    "fp_double_O2": "-DVERIF_FP=double -O2", "fp_double_checks": "-DVERIF_FP=double -DBSPLINE_ADD_TEST_CHECKS",
+    "fp_float_O2": "-DVERIF_FP=float -O2", "fp_ldouble_O2": "-DVERIF_FP='long double' -O2",
 }
 
 
